@@ -237,11 +237,13 @@ def _numlike(s: str) -> bool:
 
 
 def project(obj, keep: set[str] | None):
-    """Keep only the named keys inside snapshot dicts (None = keep all)."""
+    """Keep only the named keys inside histogram snapshots (dicts with a "freq" entry); None = keep all."""
     if keep is None:
         return obj
     if isinstance(obj, dict):
-        return {k: project(v, None) if k in keep else None for k, v in obj.items() if k in keep}
+        if "freq" in obj:
+            return {k: v for k, v in obj.items() if k in keep}
+        return {k: project(v, keep) for k, v in obj.items()}
     if isinstance(obj, list):
         return [project(v, keep) for v in obj]
     return obj
